@@ -188,7 +188,7 @@ class Runtime:
     def emit(self, e: str, id_: int = 0, o: int = 0, a: int = 0, v: int = 0, cls: str = "", old: Any = (),
              res: int = 0) -> None:
         ev = {"e": e, "t": self.task(), "id": id_, "o": o, "a": a, "v": v, "cls": cls, "old": list(old),
-              "res": res, "ip": "n/a" if e in ("res", "throw") else self.ip_raw()}
+              "res": res, "ip": "n/a" if (e in ("res", "throw") or getattr(self.tls, "foreign", False)) else self.ip_raw()}
         self.log.append(ev)
         if len(self.log) > self.max_events:
             raise HarnessAbort("watchdog: too many events")
